@@ -12,7 +12,7 @@ CONTENTS = {
         "TEXT": "g18/g3", "X": {"A": "NAME:bold", "B": "YELLOW/BLUE"},
         "GHIST": {"REPO": "RED", "HASH": "g7:bold", "VERSION": "(0,5,0)", "VER_NOT_MERGED": "BLUE:blink", "COMMIT_NAME": "WHITE/RED"}},
 }
-KINDS = ['pp', 'table', 'table2', 'record', 'help', 'leadblank', 'ghist']
+KINDS = ['pp', 'table', 'table2', 'record', 'help', 'leadblank', 'ghist', 'table4', 'relimit']
 
 
 def make_conf(content, nc):
@@ -33,6 +33,10 @@ class Objects:
                              fields_types={'st': self.enum, 'st2': self.enum}, header='Header of the table')
         self.table2 = PPTable(recs[:3], fmt='st/val:2,st/name:4,st2:6', fields=['id', 'name', 'st', 'st2'],
                               fields_types={'st': self.enum, 'st2': self.enum})
+        # column titles with several lines, some of them not strings (a number, None, True)
+        self.table4 = PPTable(recs[:3], fmt='id:6,name:8,st:9', fields=['id', 'name', 'st', 'st2'], fields_types={'st': self.enum},
+                              fields_titles={'id': ('id\nnumber', 555), 'name': ('name', None, True), 'st': ('state\nof it', 7.5)})
+        self.recs = recs
         self.recfmt = PPRecordFmt('id:5,st/full:10,st2/name:6,name:8', fields=['id', 'name', 'st', 'st2'],
                                   fields_types={'st': self.enum, 'st2': self.enum})
         self.rec = recs[2]
@@ -122,7 +126,22 @@ def render(objs, kind, conf, nocolor, mode):
     if kind == 'record':
         data = objs.recfmt(objs.rec, colors_conf=conf, no_color=nocolor)
         return str(data.ch_text()) if mode == 'whole' else ' '.join(str(c) for c in data.columns)
+    if kind == 'relimit':
+        # a table with automatic column widths is printed with limits that hide its widest values, then ONLY the limits
+        # are changed and it is printed again: the second printing must be what a table that was given that format from
+        # the start prints
+        from ak.ppobj import PPTable
+        wide = [(1, 'a'), (2, 'a much longer name'), (3, 'b'), (4, 'another long value'), (5, 'c')]
+        t = PPTable(wide, fmt='id,name;1:1', fields=['id', 'name'])
+        str(t.ch_text(colors_conf=conf, no_color=nocolor))
+        t.fmt = ';*'
+        second = str(t.ch_text(colors_conf=conf, no_color=nocolor))
+        fresh = str(PPTable(wide, fmt='id,name;*', fields=['id', 'name']).ch_text(colors_conf=conf, no_color=nocolor))
+        return second if second == fresh else second + '\nMEMORY: a table printed before its limits were changed prints differently from a fresh one'
+
     def start(conf, nocolor):
+        if kind == 'table4':
+            return objs.table4.ch_text(colors_conf=conf, no_color=nocolor)
         if kind == 'pp':
             return objs.pp(objs.value, colors_conf=conf, no_color=nocolor)
         if kind == 'table':
@@ -178,7 +197,7 @@ LINE_MODES = ('lines', 'collect', 'inter1', 'inter2')
 def render_linewise(objs, kind, conf, nocolor, whole):
     """the object consumed line by line in every supported way; returns the first result that differs from the
     whole text (or the whole text when all agree)"""
-    if kind in ('help', 'record'):
+    if kind in ('help', 'record', 'relimit'):
         return render(objs, kind, conf, nocolor, 'lines')
     for mode in LINE_MODES:
         s = render(objs, kind, conf, nocolor, mode)
